@@ -18,6 +18,8 @@ type c33node struct {
 }
 
 func (n c33node) IsJailed() bool          { return n.jailed }
+func (n c33node) IsStaked() bool          { return true } // a jailed node keeps its staked status
+func (n c33node) GetStatus() sdk.StakeStatus { return sdk.Staked }
 func (n c33node) GetAddress() sdk.Address { return n.addr }
 func (n c33node) GetChains() []string     { return n.chains }
 
